@@ -28,10 +28,12 @@ CONSTANTS
   FailSaves = TRUE
   Focus = TRUE
   Record = TRUE
+  ReadOnly = FALSE
   RM = FALSE
   Slots = 1
   RmUuids = {1, 2}
   Scrapes = FALSE
+  HookScrapes = FALSE
   Marking = FALSE
   WindAt = 0
   Gaps = {}
